@@ -66,6 +66,9 @@ type c13Env struct {
 	nextAddr   atomic.Int32
 	scenario   string
 	conclusive bool
+	// serveErrWant, if set, is the error the serve call is expected to return (a listener that failed
+	// for good) instead of nil
+	serveErrWant error
 }
 
 func newC13Env(w *core.W, kind, scenario string, seed uint64) *c13Env {
@@ -331,8 +334,11 @@ func (e *c13Env) finish(reqs []*c13Req, expectDelivered bool) {
 		}
 		return
 	}
-	if serveErr != nil {
+	if serveErr != nil && e.serveErrWant == nil {
 		e.viol("serve-call-returns-error", fmt.Sprintf("serve call returned %v after a successful Shutdown", serveErr))
+	}
+	if e.serveErrWant != nil && !errors.Is(serveErr, e.serveErrWant) {
+		e.viol("serve-call-hides-listener-failure", fmt.Sprintf("the listener failed with %q, the serve call returned %v", e.serveErrWant, serveErr))
 	}
 	// replies written by handlers are delivered
 	written := map[string]bool{}
@@ -1224,6 +1230,56 @@ func c13ClientGoneScenario(w *core.W, kind string, seed uint64) {
 	e.finish(nil, false)
 }
 
+// scenario: the listener fails for good (Accept returns a non-temporary error) while connections are
+// open - one idle after an answered request, optionally one with a handler still running. The serve
+// loop is over, but the server has been started and not shut down: Shutdown still has to release the
+// connections, wait for the handler, and leave nothing behind; the serve call reports the failure.
+func c13AcceptFailsScenario(w *core.W, kind string, inflight bool, seed uint64) {
+	e := newC13Env(w, kind, "listener-fails", seed)
+	if !e.start() {
+		return
+	}
+	idle := e.send(91)
+	deadline := time.Now().Add(c13Watch)
+	for e.exited.Load() < 1 && time.Now().Before(deadline) {
+		time.Sleep(time.Millisecond)
+	}
+	reqs := []*c13Req{idle}
+	if inflight {
+		e.holdOn.Store(true)
+		reqs = append(reqs, e.send(92))
+		for deadline = time.Now().Add(c13Watch); e.entered.Load() < 2 && time.Now().Before(deadline); {
+			time.Sleep(time.Millisecond)
+		}
+	}
+	if e.exited.Load() < 1 || (inflight && e.entered.Load() < 2) {
+		w.Inconclusive("c13-listener-fails-setup:" + kind)
+	}
+	fatal := errors.New("accept: too many open files in system")
+	e.serveErrWant = fatal
+	e.ln.FailAccept(fatal)
+	e.ctl.Note("listener.failed", "")
+	time.Sleep(3 * time.Millisecond)
+	w.Count("listener_failures", 1)
+	sd := e.shutdown("s1", nil)
+	if inflight {
+		time.Sleep(2 * time.Millisecond)
+		if err, ok := sd.wait(0); ok {
+			e.viol("shutdown-returned-before-handler", fmt.Sprintf("Shutdown returned (%v) although a handler that had started was still running (after the listener had failed)", err))
+			close(e.hold)
+			e.finish(reqs, true)
+			return
+		}
+		close(e.hold)
+	}
+	if err, ok := sd.wait(c13Watch); !ok {
+		e.viol("shutdown-does-not-return", "Shutdown did not return after the listener had failed")
+	} else if err != nil {
+		e.viol("shutdown-error", fmt.Sprintf("Shutdown of a started server whose listener had failed returned %v", err))
+	}
+	e.finish(reqs, true)
+}
+
 type c13Case struct {
 	name string
 	run  func(w *core.W, seed uint64)
@@ -1262,6 +1318,10 @@ func c13Cases() []c13Case {
 		cs = append(cs, c13Case{kind + " misuse", func(w *core.W, s uint64) { c13MisuseScenario(w, kind, s) }})
 		if kind == "tcp-sim" || kind == "tls-sim" {
 			cs = append(cs, c13Case{kind + " client gone before reply", func(w *core.W, s uint64) { c13ClientGoneScenario(w, kind, s) }})
+		}
+		if kind == "tcp-sim" || kind == "tls-sim" {
+			cs = append(cs, c13Case{kind + " listener fails", func(w *core.W, s uint64) { c13AcceptFailsScenario(w, kind, false, s) }})
+			cs = append(cs, c13Case{kind + " listener fails, handler running", func(w *core.W, s uint64) { c13AcceptFailsScenario(w, kind, true, s) }})
 		}
 		if kind == "tcp-sim" || kind == "pc-sim" {
 			cs = append(cs, c13Case{kind + " restart during drain", func(w *core.W, s uint64) { c13RestartDuringDrain(w, kind, s) }})
